@@ -115,11 +115,11 @@ def search(ctx):
                 continue
             if not (abs(cext - (csca + cabs)) <= 1e-12 * abs(cext)):
                 ctx.violation("C03:energy", "extinction != scattering + absorption", info)
-            if cabs < -1e-7 * cext:      # rounding of the layered recursion reaches ~5e-9 of the extinction
+            if not (cabs >= -(1e-5 if layered else 1e-7) * cext):      # rounding of the layer recursion reaches 2e-7 of the extinction for 2-5 layers
                 ctx.violation("C03:abs-negative", "absorption cross section negative (%g of extinction)" % (cabs / cext), info)
             if m.imag == 0 and not layered and abs(cabs) > 1e-9 * cext:
                 ctx.violation("C03:abs-real-index", "absorption does not vanish for a real index (%g of extinction)" % (cabs / cext), info)
-            if layered and all(np.imag(v) == 0 for v in sc.n) and abs(cabs) > 1e-7 * cext:
+            if layered and all(np.imag(v) == 0 for v in sc.n) and not (abs(cabs) <= 1e-5 * cext):     # rounding of the layer recursion reaches 2e-7 of the extinction
                 ctx.violation("C03:abs-real-index:layered", "absorption of a sphere made of %d real-index layers does not vanish (%g of extinction)" % (len(sc.n), cabs / cext),
                               dict(info, n=[cx(v) for v in sc.n], r=[float(v) for v in sc.r]))
             if not csca > 0:
